@@ -8,8 +8,9 @@ from concurrent.futures import ProcessPoolExecutor
 from . import flow, serial_rec, tlaval, tlc
 
 
-def cfg(nlines, ncorr, inv, live=True):
-    c = ["SPECIFICATION Spec", "CONSTANTS", " NLines = %d" % nlines, " MaxCorrupt = %d" % ncorr]
+def cfg(nlines, ncorr, inv, live=True, old_resend=False):
+    c = ["SPECIFICATION Spec", "CONSTANTS", " NLines = %d" % nlines, " MaxCorrupt = %d" % ncorr,
+         " AdvanceAfterSend = %s" % ("TRUE" if old_resend else "FALSE")]
     for i in inv:
         c.append("INVARIANT " + i)
     if live:
@@ -101,7 +102,7 @@ def impl_conformance(traces):
     for n, items in sorted(groups.items()):
         path = os.path.join(workdir(), "implconf_%d.json" % n)
         write_json(path, [p for _, p in items])
-        cfg = "SPECIFICATION TSpec\nCONSTANTS\n NLines = %d\n MaxCorrupt = 99\n" % n
+        cfg = "SPECIFICATION TSpec\nCONSTANTS\n NLines = %d\n MaxCorrupt = 99\n AdvanceAfterSend = FALSE\n" % n
         r = tlc.validate("SenderImplTrace", cfg, path, tag="implconf")
         if r.errors:
             raise flow.MachineryError("SenderImplTrace failed: %s\n%s" % (r.errors[:2], r.stdout[-1500:]))
@@ -123,7 +124,10 @@ class P(flow.Plan):
 
     def model_runs(self, tier):
         runs = [("sender-3x2", "SenderImpl", cfg(3, 2, ["CompleteModuloFindings", "InOrder"]), None, []),
-                ("sender-3x2-strict", "SenderImpl", cfg(3, 2, ["CompleteStrict"], live=False), None, ["CompleteStrict"])]
+                ("sender-3x2-strict", "SenderImpl", cfg(3, 2, ["CompleteStrict"], live=False), None, ["CompleteStrict"]),
+                # the code before fix F21: a reply handled between the retransmission and `resendfrom += 1` is overwritten
+                ("sender-2x2-F21", "SenderImpl", cfg(2, 2, ["CompleteModuloFindings"], live=False, old_resend=True), None,
+                 ["CompleteModuloFindings"])]
         pc = ("SPECIFICATION Spec\nCONSTANTS\n NLines = 3\n MaxCorrupt = %d\n MaxPauses = %d\n NRestore = 2\n PauseClearsSentlines = %s\n"
               "INVARIANT CompleteModuloFindings\nINVARIANT InOrder\nINVARIANT RestoreDelivered\nINVARIANT NeverDies\n%s")
         big = tier == "thorough"
